@@ -1138,6 +1138,11 @@ func srcSliceAt(c *Ctx, f *ssa.Function, pos token.Pos) string {
 
 func sliceExprCovered(f *ssa.Function, sl *ssa.Slice, blk *ssa.BasicBlock) (string, bool) {
 	x := sl.X
+	curUseBlock = blk
+	// rest[:2] / rest[2:] while consuming a string of even length two characters at a time
+	if why, ok := evenConsumeProof(f, sl, blk); ok {
+		return why, true
+	}
 	constOf := func(v ssa.Value) (int64, bool) {
 		if v == nil {
 			return 0, true
@@ -1702,4 +1707,84 @@ func condFacts(cond ssa.Value, depth int) []condFact {
 		return out
 	}
 	return nil
+}
+
+
+// evenConsumeProof: s[:2] or s[2:] where s is known to be non-empty and of even length: s is the
+// original string X (a dominating test rejects odd len(X)) or what is left of it after dropping
+// two characters at a time.
+func evenConsumeProof(f *ssa.Function, sl *ssa.Slice, blk *ssa.BasicBlock) (string, bool) {
+	two := func(v ssa.Value) bool {
+		k, ok := v.(*ssa.Const)
+		return ok && isIntConst(k) && k.Int64() == 2
+	}
+	if !((sl.Low == nil && two(sl.High)) || (sl.High == nil && two(sl.Low))) {
+		return "", false
+	}
+	if !evenLength(f, sl.X, blk, map[ssa.Value]bool{}) {
+		return "", false
+	}
+	if why, ok := indexCovered(f, sl.X, 0, blk); ok { // non-empty
+		return "the string has even length (tested) and is not empty here, so it has at least two characters; " + why, true
+	}
+	return "", false
+}
+
+func evenLength(f *ssa.Function, v ssa.Value, blk *ssa.BasicBlock, seen map[ssa.Value]bool) bool {
+	if seen[v] {
+		return true
+	}
+	seen[v] = true
+	switch x := v.(type) {
+	case *ssa.Phi:
+		for _, e := range x.Edges {
+			if !evenLength(f, e, blk, seen) {
+				return false
+			}
+		}
+		return true
+	case *ssa.Slice:
+		// w[2:] of an even-length w
+		if k, ok := x.Low.(*ssa.Const); ok && isIntConst(k) && k.Int64()%2 == 0 && x.High == nil {
+			return evenLength(f, x.X, blk, seen)
+		}
+		return false
+	}
+	// a dominating `len(v) % 2 != 0` → exit (or == 0 true edge)
+	for _, b := range f.Blocks {
+		iff, ok := b.Instrs[len(b.Instrs)-1].(*ssa.If)
+		if !ok {
+			continue
+		}
+		for _, cf := range condFacts(iff.Cond, 0) {
+			bo := cf.bo
+			rem, ok := bo.X.(*ssa.BinOp)
+			if !ok || rem.Op != token.REM {
+				continue
+			}
+			l, ok := lenOperand(rem.X)
+			if !ok || !(l == v || (lenKey(f, l) != "" && lenKey(f, l) == lenKey(f, v))) {
+				continue
+			}
+			k2, ok := rem.Y.(*ssa.Const)
+			if !ok || !isIntConst(k2) || k2.Int64() != 2 {
+				continue
+			}
+			kz, ok := bo.Y.(*ssa.Const)
+			if !ok || !isIntConst(kz) || kz.Int64() != 0 {
+				continue
+			}
+			edge := -1
+			switch bo.Op {
+			case token.NEQ:
+				edge = cf.falseEdge
+			case token.EQL:
+				edge = cf.trueEdge
+			}
+			if edge >= 0 && edgesDominate(f, []cfgEdge{{b, edge}}, blk) {
+				return true
+			}
+		}
+	}
+	return false
 }
